@@ -131,3 +131,41 @@ func H_C11_new_session() {
 	})
 	verifrt.Assert(!crashed, "process-survives")
 }
+
+// H_C11_rotation_nobody_waiting: the n = 0 case - bad_server_salt names a message nobody waits for: an id the
+// client never used (symbolic), the client's own acknowledgement, or a request that was already answered.  The
+// salt is adopted and written to the store all the same, nothing stalls, and the next request goes out under it.
+func H_C11_rotation_nobody_waiting(kind int) {
+	verifrt.SetClock(1600000000, 0, 1000)
+	env := newNetEnv(100)
+	salt := verifrt.I64()
+	verifrt.Assume(salt != 100)
+	crashed := verifrt.Catch(func() {
+		env.start()
+		id := verifrt.I64()
+		if kind != 0 {
+			env.probe("first-")
+			verifrt.Quiesce()
+			log := env.t.log
+			if len(log) < 2 {
+				verifrt.Assert(false, "client-acknowledged-the-answer")
+				return
+			}
+			id = log[0].msgID // the answered request
+			if kind == 2 {
+				id = log[len(log)-1].msgID // the acknowledgement
+			}
+		}
+		stored0 := len(env.store.stored)
+		env.deliver(mustMarshal(&objects.BadServerSalt{BadMsgID: id, BadMsgSeqNo: verifrt.I32(), ErrorCode: 48, NewSalt: salt}), 2)
+		verifrt.Quiesce()
+		verifrt.Assert(env.m.serverSalt == salt, "new-salt-adopted-with-nobody-waiting")
+		verifrt.Assert(len(env.store.stored) > stored0 && env.store.stored[len(env.store.stored)-1].Salt == salt, "new-salt-stored-with-nobody-waiting")
+		before := len(env.t.log)
+		env.probe("after-rotation-nobody-waiting-")
+		if len(env.t.log) > before {
+			verifrt.Assert(env.t.log[before].salt == salt, "next-request-under-the-new-salt")
+		}
+	})
+	verifrt.Assert(!crashed, "process-survives")
+}
